@@ -206,6 +206,22 @@ impl VSketch {
     }
 }
 
+// ---- effective configuration (what the built components really use) ------------------------------
+thread_local! {
+    static LAST_PROCESSOR_CFG: std::cell::Cell<Option<(bool, u64)>> = std::cell::Cell::new(None);
+}
+
+/// Called by the cache processors (both flavours) when they are spawned, on the builder's thread.
+pub(crate) fn note_processor_config(ignore_internal_cost: bool, cleanup: std::time::Duration) {
+    LAST_PROCESSOR_CFG.with(|c| c.set(Some((ignore_internal_cost, cleanup.as_nanos() as u64))));
+}
+
+/// `(ignore_internal_cost, cleanup interval in ns)` of the processor most recently spawned by a
+/// `finalize()` on this thread.
+pub fn take_processor_config() -> Option<(bool, u64)> {
+    LAST_PROCESSOR_CFG.with(|c| c.take())
+}
+
 /// Snapshot of a `TinyLFU`.
 #[derive(Clone, Debug, Default)]
 pub struct TinySnap {
@@ -693,6 +709,17 @@ mod sync_facade {
     {
         c.store.item_size()
     }
+
+    /// `(aging window of the TinyLFU, capacity of the get ring)` as built
+    pub fn cache_effective_sizes<K, V, KH, C, U, CB, S>(c: &Cache<K, V, KH, C, U, CB, S>) -> (usize, usize)
+    where
+        V: Send + Sync + 'static,
+        U: UpdateValidator<Value = V>,
+        S: BuildHasher + Clone + 'static,
+    {
+        let samples = c.policy.inner.lock().verif_admit().verif_snapshot().samples;
+        (samples, c.get_buf.verif_capa())
+    }
 }
 
 #[cfg(all(feature = "sync", feature = "async"))]
@@ -757,5 +784,20 @@ mod async_facade {
         S: BuildHasher + Clone + 'static + Send + Sync,
     {
         c.store.item_size()
+    }
+
+    /// `(aging window of the TinyLFU, capacity of the get ring)` as built
+    pub fn async_cache_effective_sizes<K, V, KH, C, U, CB, S>(c: &AsyncCache<K, V, KH, C, U, CB, S>) -> (usize, usize)
+    where
+        K: Hash + Eq,
+        V: Send + Sync + 'static,
+        KH: KeyBuilder<Key = K>,
+        C: Coster<Value = V>,
+        U: UpdateValidator<Value = V>,
+        CB: CacheCallback<Value = V>,
+        S: BuildHasher + Clone + 'static + Send + Sync,
+    {
+        let samples = c.policy.inner.lock().verif_admit().verif_snapshot().samples;
+        (samples, c.get_buf.verif_capa())
     }
 }
